@@ -69,15 +69,13 @@ pub fn load_configs_raw(config_files: Vec<PathBuf>, partial_emmyrcs: Option<Vec<
         let flatten_config = FlattenConfigObject::parse(first_config);
         flatten_config.to_emmyrc()
     } else {
-        let merge_config =
-            config_jsons
-                .into_iter()
-                .fold(Value::Object(Default::default()), |mut acc, item| {
-                    merge_values(&mut acc, item);
-                    acc
-                });
-        let flatten_config = FlattenConfigObject::parse(merge_config.clone());
-        flatten_config.to_emmyrc()
+        // Flatten every file first and merge the flattened keys in file order, so that
+        // "a.b" in one file and {"a": {"b": ..}} in another are the same setting.
+        let mut merged = FlattenConfigObject::parse(Value::Object(Default::default()));
+        for config_json in config_jsons {
+            merged.merge(FlattenConfigObject::parse(config_json), merge_values);
+        }
+        merged.to_emmyrc()
     }
 }
 
